@@ -149,6 +149,9 @@ def lower_socket(trace, enc_of=None, blockers=()):
         if e == "call":
             m = ev.get("method")
             kinds[ev["id"]] = m
+            if isinstance(ev["id"], str):        # submitted by a script-installed subscriber: ids are strings
+                ev = dict(ev, id=1000000 + sum(ord(ch) * (k + 1) * 131 for k, ch in enumerate(ev["id"])) % 1000000)
+                kinds[ev["id"]] = m
             if ev.get("target", "socket") != "socket":
                 continue
             if m == "send" and "desc" in ev:
@@ -161,6 +164,8 @@ def lower_socket(trace, enc_of=None, blockers=()):
                 out.append({"e": "callclose", "t": t})
         elif e == "ret":
             m = kinds.get(ev["id"])
+            if isinstance(ev["id"], str):
+                ev = dict(ev, id=1000000 + sum(ord(ch) * (k + 1) * 131 for k, ch in enumerate(ev["id"])) % 1000000)
             if m == "send":
                 out.append({"e": "retsend", "t": t, "id": ev["id"], "res": ev["res"]})
             elif m == "close":
